@@ -45,6 +45,10 @@ MARGIN = 0.05       # a surface keeps this distance from the layer boundaries (r
 
 def base_topology(M, np_, shape):
     conv, atm, order = shape['convention'], shape['atmos'], shape.get('block_order')
+    # 'order_history': the block order the geometry is CREATED with, followed by the values
+    # assigned to geo.block_order before writing (the last one is shape['block_order'])
+    hist = shape.get('order_history')
+    if hist: order = hist[0]
     case = shape.get('case')
     topo = shape['topo']
     ztop, thick = LAYERS[shape.get('layers', 'high')]
@@ -95,6 +99,8 @@ def name_pattern(shape, what):
 def build(b, M, np_, shape):
     """-> (geometry, info).  b: value provider."""
     geo = base_topology(M, np_, shape)
+    for o in (shape.get('order_history') or [])[1:]:
+        geo.block_order = o          # the real property setter (set_block_order_int, setup_block_name_index)
     unit = shape.get('unit', '')
     geo.unit_type = unit
     s = geo.unit_scale
@@ -147,6 +153,17 @@ def build(b, M, np_, shape):
     for n, ci in enumerate(which):
         col = geo.columnlist[ci]
         # column n gets its surface inside layer 1 + (n mod nlay); every third one above ground level
+        if shape.get('attop') and n == 0:
+            # an explicit surface EXACTLY at ground level (the value a column without a surface
+            # entry has): it is not a default surface and must stay in the SURFA section
+            col.surface = geo.layerlist[0].bottom
+            geo.set_column_num_layers(col)
+            continue
+        if shape.get('attop') and n == 1:
+            # anywhere within 1 of ground level (below, at or above it)
+            col.surface = b.real_between('surf%d' % ci, geo.layerlist[0].bottom - 1.0, geo.layerlist[0].bottom + 1.0, 'f', 10, 2, s, strict=False)
+            geo.set_column_num_layers(col)
+            continue
         if n % 3 == 2 or shape.get('surface_above'):
             lo, hi = geo.layerlist[0].bottom + MARGIN, geo.layerlist[0].bottom + 50.0
         else:
